@@ -7,7 +7,7 @@ ASSUMED (stated, not proved): multiprocessing -- `pool.apply_async(g, args)` giv
 is deterministic (its result is a function of its arguments: contract option `deterministic`; its own contract is proved in contracts.unseen) and its in-place writes to the
 column it receives are not seen by the other calls (each call receives its own X[feature]); the pandas assembly `X[[...]] = DataFrame({...}, index=X.index)` is a library call.
 """
-from z3 import And, Or, Not, Implies, ForAll, If, BoolVal, Const, Int, Function
+from z3 import And, Or, Not, Implies, ForAll, Exists, If, BoolVal, Const, Int, Function
 import copy as _copy
 from pyvc.types import *
 from pyvc.engine import FunctionSpec, LoopSpec
@@ -68,7 +68,17 @@ def cd_post(o, n, r, loc):
              ForAll([k], Implies(And(0 <= k, k < lv.Len(qf)), And(DVG.has(Cq(s1, 'values_orders'), lv.At(qf, k)),
                     DVG.get(Cq(s1, 'values_orders'), lv.At(qf, k)) == YT.proj(1, Rf(lv.At(qf, k), Xq, Cq(s0, 'q'), Cq(s0, 'str_nan'))))), patterns=[lv.At(qf, k)])),
             ('other_entries_untouched', ForAll([f], Implies(Not(lv.Has(qf, f)), DVG.get(Cq(s1, 'values_orders'), f) == DVG.get(Cq(s0, 'values_orders'), f)), patterns=[DVG.get(Cq(s1, 'values_orders'), f)]))]
-SPECS_CD['ContinuousDiscretizer.fit'] = FunctionSpec(qual='ContinuousDiscretizer.fit', file=QFILE, cls='ContinuousDiscretizerP', params=[('self', CDT), ('X', OPQ), ('y', OPQ)], returns=CDT, modifies=['self'],
+def cd_res(o, f):
+    qf = Cq(o['self'], 'quantitative_features'); Xq = opaque_apply('getitem', [o['X'], opaque_apply('box_' + repr(LVAL), [qf])])
+    return Function('res_fit_feature', Val, OPQ.sort(), OPQ.sort(), Val, YT.sort())(f, Xq, Cq(o['self'], 'q'), Cq(o['self'], 'str_nan'))
+def cd_lemmas(o, v):
+    """ghost lemmas after each assignment to `all_orders` (they hold for [], for the sequential list and for [] + the unordered results)"""
+    ao = v['all_orders']; qf = Cq(o['self'], 'quantitative_features'); j = Int('j_cl'); i = Int('i_cl')
+    return [('every_element_is_the_result_for_some_feature', ForAll([j], Implies(And(0 <= j, j < ly.Len(ao)), Exists([i], And(0 <= i, i < lv.Len(qf), ly.At(ao, j) == cd_res(o, lv.At(qf, i))))), patterns=[ly.At(ao, j)])),
+            ('when_complete_every_feature_has_its_result', Implies(ly.Len(ao) == lv.Len(qf), ForAll([i], Implies(And(0 <= i, i < lv.Len(qf)), And(ly.Has(ao, cd_res(o, lv.At(qf, i))), 0 <= ly.Idx(ao, cd_res(o, lv.At(qf, i))), ly.Idx(ao, cd_res(o, lv.At(qf, i))) < ly.Len(ao),
+                                                                              ly.At(ao, ly.Idx(ao, cd_res(o, lv.At(qf, i)))) == cd_res(o, lv.At(qf, i)))), patterns=[lv.At(qf, i)])))]
+SPECS_CD['ContinuousDiscretizer.fit'] = FunctionSpec(lemmas={'all_orders': cd_lemmas}, qual='ContinuousDiscretizer.fit', file=QFILE, cls='ContinuousDiscretizerP', params=[('self', CDT), ('X', OPQ), ('y', OPQ)], returns=CDT, modifies=['self'],
     requires=lambda o: And(lv.Nodup(Cq(o['self'], 'quantitative_features')), lv.Nodup(DVG.keys(Cq(o['self'], 'values_orders')))), raises={'AssertionError': lambda o: Cq(o['self'], 'is_fitted')},
     ensures=cd_post, pool_model=True, locals={'all_orders': LYT},
     note='multiprocessing modelled by its ASSUMED contract (imap_unordered = the same values in an arbitrary order)')
+SPECS.update(SPECS_CD)
